@@ -9,6 +9,7 @@ import (
 	"verif/internal/b1"
 	"verif/internal/core"
 	"verif/internal/project"
+	"verif/internal/universe"
 )
 
 // ---- C08: spec/Signature.tla ----
@@ -23,6 +24,19 @@ type sigCfg struct {
 	Nargs   int    `json:"nargs"`
 	Named   bool   `json:"named"`
 	Imp     string `json:"imp"`
+	Pkg     string `json:"pkg"`
+}
+type sigImport struct {
+	Path     string `json:"path"`
+	Alias    string `json:"alias"`
+	Declared string `json:"declared"`
+}
+
+func (i sigImport) qual() string {
+	if i.Alias != "" {
+		return i.Alias
+	}
+	return i.Declared
 }
 type sigParam struct {
 	Name string `json:"name"`
@@ -35,8 +49,25 @@ type sigShape struct {
 	Results []sigParam `json:"results"`
 }
 type sigCase struct {
-	Cfg   sigCfg   `json:"cfg"`
-	Shape sigShape `json:"shape"`
+	Cfg    sigCfg    `json:"cfg"`
+	Shape  sigShape  `json:"shape"`
+	Import sigImport `json:"import"`
+}
+
+// sigImports are the imported packages of the signature family: the type
+// alphabet's ext package under every import form of Signature.tla Imports.
+func sigImports(cases []*sigCase) []b1.ExtPkg {
+	seen := map[string]bool{"ext": true}
+	var out []b1.ExtPkg
+	for _, s := range cases {
+		if seen[s.Import.Path] {
+			continue
+		}
+		seen[s.Import.Path] = true
+		out = append(out, b1.ExtPkg{Path: s.Import.Path, Alias: s.Import.Alias,
+			Src: strings.Replace(universe.ExtSrc, "package ext", "package "+s.Import.Declared, 1)})
+	}
+	return out
 }
 
 var sigArgTypes = []string{"int", "ext.XInt", "*MyInt"}
@@ -70,12 +101,12 @@ func sigConcretise(k int, s *sigCase) *b1.Case {
 	srcBase, dstBase := fmt.Sprintf("SigS%d", k), fmt.Sprintf("SigD%d", k)
 	var d strings.Builder
 	if c.Imp == "src" || c.Imp == "both" {
-		srcBase = "ext.XS"
+		srcBase = s.Import.qual() + ".XS"
 	} else {
 		fmt.Fprintf(&d, "type %s struct {\n\tX int\n}\n\n", srcBase)
 	}
 	if c.Imp == "dst" || c.Imp == "both" {
-		dstBase = "ext.XS"
+		dstBase = s.Import.qual() + ".XS"
 	} else {
 		fmt.Fprintf(&d, "type %s struct {\n\tX int\n}\n", dstBase)
 	}
@@ -116,7 +147,7 @@ func sigConcretise(k int, s *sigCase) *b1.Case {
 	name := fmt.Sprintf("G%d", k)
 	fkey := name
 	if c.Recv {
-		fkey = strings.TrimPrefix(srcBase, "ext.") + "." + name
+		fkey = srcBase[strings.LastIndex(srcBase, ".")+1:] + "." + name
 	}
 	return &b1.Case{ID: core.HashID(string(js)), JSON: js, Func: fkey, Style: c.Style, Decls: d.String(), Notes: notes,
 		Method: fmt.Sprintf("%s(%s) %s", name, strings.Join(params, ", "), results), Alone: s.Shape.Reject, Data: s}
@@ -141,6 +172,9 @@ func sigDescribe(s *sigCase) string {
 		f = append(f, "named")
 	}
 	f = append(f, "imported="+c.Imp)
+	if c.Imp != "none" {
+		f = append(f, fmt.Sprintf("import[path=%s name=%q package=%s]", s.Import.Path, s.Import.Alias, s.Import.Declared))
+	}
 	return strings.Join(f, " ")
 }
 
@@ -246,6 +280,21 @@ func sigJudge(r *b1.Result) b1.Verdict {
 
 func sigDeviation(s *sigCase, r *b1.Result) string { return "" }
 
+// sigOptions are the run options of the signature family for the given cases.
+func sigOptions(name string, perFile int, compile bool, cases []*b1.Case) b1.Options {
+	var ss []*sigCase
+	var tn []string
+	for _, cs := range cases {
+		s := cs.Data.(*sigCase)
+		ss = append(ss, s)
+	}
+	imps := sigImports(ss)
+	for _, e := range imps {
+		tn = append(tn, e.Qual()+".XS", e.Qual()+".XInt")
+	}
+	return b1.Options{Name: name, PerFile: perFile, Family: "signature", Compile: compile, Imports: imps, TypeNames: tn}
+}
+
 func sigCases(c *core.Ctx) []*b1.Case {
 	ss := sigEnumerate(c)
 	var cases []*b1.Case
@@ -264,13 +313,13 @@ func C08(c *core.Ctx) {
 		return
 	}
 	cases := sigCases(c)
-	st := b1.Run(c, b1.Options{Name: "sig", PerFile: 40, Family: "signature"}, cases, sigJudge)
+	st := b1.Run(c, sigOptions("sig", 40, false, cases), cases, sigJudge)
 	c.Set("signature_cases", st.Cases)
 	c.Set("exhaustive", true)
 	for _, j := range []int{0, len(cases) / 2, len(cases) - 1} {
 		c.Sample(map[string]any{"cfg": cases[j].Data.(*sigCase).Cfg, "predicted": cases[j].Data.(*sigCase).Shape, "method": cases[j].Method, "notations": cases[j].Notes})
 	}
-	c.Set("rule", "complete product style x recv x reverse x source pointer x destination pointer x error x 0..3 additional arguments x named/unnamed x imported operand types (none/src/dst/both), each with the header Signature.tla predicts or `reject`; header compared by receiver/parameter/result names and type expressions; rejected combinations travel alone and must exit non-zero")
+	c.Set("rule", "complete product style x recv x reverse x source pointer x destination pointer x error x 0..3 additional arguments x named/unnamed x imported operand types (none/src/dst/both) x import form (path element = package name, version element as name, package name differing from the path, explicit name), each with the header Signature.tla predicts or `reject`; header compared by receiver/parameter/result names and type expressions; rejected combinations travel alone and must exit non-zero")
 }
 
 // ---- C10 static: spec/Hooks.tla ----
